@@ -327,7 +327,7 @@ def r01d(ck, fb):
     for fn in ('load_index', 'load_snapshot', 'load_log'):
         b = ck.body(SA + fn, 'R01d')
         if b:
-            ck.require(len(b.calls(r'ContextFutureSpawner::wait$|AsyncContext::wait$')) == 1 and not b.calls(r'ContextFutureSpawner::spawn$'),
+            ck.require(len(b.calls(r'ContextFutureSpawner::wait$|AsyncContext::wait$')) >= 1 and not b.calls(r'ContextFutureSpawner::spawn$'),
                        'R01d', '%s:ctx.wait' % fn, b.where(), 'stage %s is not serialised with ctx.wait' % fn)
     ls = ck.body(SA + 'load_snapshot', 'R01d')
     if ls:
